@@ -107,6 +107,10 @@ def list_ops(l):
         ("deepcopy", lambda a: a.deepcopy(), True),
         ("append_list", lambda a: a.append(a), False),
         ("append_list_sorted", lambda a: a.append(a, sort=True), False),
+        # one operand without rows: the result is still a list of its own
+        ("append_empty_list", lambda a: a.append(type(a)([])), False),
+        ("append_empty_frame", lambda a: a.append(type(a)([]).df), False),
+        ("empty_append_list", lambda a: type(a)([]).append(a), False),
         ("iterate", lambda a: [i for i in a], False),
         ("offsets", lambda a: (a.first_offset(), a.last_offset(), a.first_last_offset()) if len(a) else None, False),
         ("describe", lambda a: a.describe(), False),
